@@ -196,6 +196,9 @@ func candidates(sc *Scenario) []*Scenario {
 			continue
 		}
 		t := t
+		if len(sc.Tasks[t].Attempts) > 1 {
+			add(func(c *Scenario) bool { a := c.Tasks[t].Attempts; c.Tasks[t].Attempts = a[:len(a)-1]; return true })
+		}
 		for k := range sc.Tasks[t].Attempts {
 			k := k
 			a := sc.Tasks[t].Attempts[k]
